@@ -87,6 +87,9 @@ class Event(object):
             return float(t)
         if k == "timeprod":
             return (float(t) - self.p["r1"]) * (float(t) - self.p["r2"])
+        if k == "timeodd":
+            # an odd number of simple roots, close together: several crossings inside one step, net sign change over it
+            return float(np.prod([(float(t) - r) / self.p["w"] for r in self.p["roots"]]))
         if k == "deriv":
             return float(np.asarray(dy).reshape(-1)[self.p["i"]])
         raise KeyError(k)
@@ -115,6 +118,8 @@ class Event(object):
             return max(1.0, abs(prob.t0))
         if k == "timeprod":
             return max(1.0, abs(self.p["r1"] - self.p["r2"])) ** 2
+        if k == "timeodd":
+            return 1.0
         return prob.scale() * max(prob.rate(), 1e-3)
 
     def grad_norm(self):
